@@ -195,3 +195,58 @@ def project_concrete(files, correlate=True, **settings):
             os.rmdir(d)
         except OSError:
             pass
+
+
+def parse_source_lines(physical_lines, **settings):
+    """Whole front end on symbolic PHYSICAL lines: real FortranReader (stream stubbed) + real parser."""
+    import ford.sourceform as sf
+    import ford.reader as rd
+    import ford.utils as fu
+    from ford.settings import ProjectSettings
+    from fv import readerh
+
+    d = tempfile.mkdtemp(prefix="fvp-")
+    p = os.path.join(d, "t.f90")
+    with open(p, "w") as f:
+        f.write("! symbolic program\n")
+
+    def make_reader(path, docmark="!", predocmark="", docmark_alt="", predocmark_alt="", *a, **k):
+        return readerh.mk_reader([l + "\n" for l in physical_lines], docmark=docmark, predocmark=predocmark,
+                                 docmark_alt=docmark_alt, predocmark_alt=predocmark_alt)
+
+    try:
+        extra = {(sf, "FortranReader"): make_reader}
+        extra.update(helper_patches())
+        extra[(sf, "namelist")] = sf.NameSelector()
+        extra[(rd, "_contains_unterminated_string")] = pointwise(rd._contains_unterminated_string)
+        with patch.patched(sf, fu, rd, extra=extra):
+            buf = io.StringIO()
+            with contextlib.redirect_stdout(buf):
+                return sf.FortranSourceFile(p, ProjectSettings(dbg=False, **settings))
+    finally:
+        try:
+            os.remove(p)
+            os.rmdir(d)
+        except OSError:
+            pass
+
+
+def parse_source_text(text, **settings):
+    """natively: real reader on a real file + real parser"""
+    import ford.sourceform as sf
+    from ford.settings import ProjectSettings
+
+    d = tempfile.mkdtemp(prefix="fvp-")
+    p = os.path.join(d, "t.f90")
+    with open(p, "w") as f:
+        f.write(text)
+    try:
+        buf = io.StringIO()
+        with contextlib.redirect_stdout(buf):
+            return sf.FortranSourceFile(p, ProjectSettings(dbg=False, **settings))
+    finally:
+        try:
+            os.remove(p)
+            os.rmdir(d)
+        except OSError:
+            pass
